@@ -42,6 +42,7 @@ type c15Case struct {
 	HW      obs.Hex    `json:"hw"`
 	IP      obs.Hex    `json:"ip"`
 	Mods    []c15Mod   `json:"mods"`
+	Spare   int        `json:"spare"` // spare capacity of the caller's modifier slice
 }
 
 // model packet
@@ -259,31 +260,43 @@ var c15 = newChk("C15", "builder-model",
 			m.opts[53] = []byte{1}
 		}
 		override := false
-		var mods []dhcpv4.Modifier
+		// the caller's modifier slice may have spare capacity (Spare) and is passed to the builder twice
+		mods := make([]dhcpv4.Modifier, 0, len(c.Mods)+c.Spare)
 		for _, md := range c.Mods {
 			mods = append(mods, c15Apply(m, md, in))
 			override = true
 		}
-		var out *dhcpv4.DHCPv4
-		var err error
-		switch c.Builder {
-		case 0:
-			out, err = dhcpv4.NewReplyFromRequest(in, mods...)
-		case 1:
-			out, err = dhcpv4.NewRequestFromOffer(in, mods...)
-		case 2:
-			out, err = dhcpv4.NewRenewFromAck(in, mods...)
-		case 3:
-			out, err = dhcpv4.NewReleaseFromACK(in, mods...)
-		case 4:
-			out, err = dhcpv4.NewInform(hw, lip, mods...)
-		case 5:
-			out, err = dhcpv4.NewDiscovery(hw, mods...)
+		build := func() (*dhcpv4.DHCPv4, error) {
+			switch c.Builder {
+			case 0:
+				return dhcpv4.NewReplyFromRequest(in, mods...)
+			case 1:
+				return dhcpv4.NewRequestFromOffer(in, mods...)
+			case 2:
+				return dhcpv4.NewRenewFromAck(in, mods...)
+			case 3:
+				return dhcpv4.NewReleaseFromACK(in, mods...)
+			case 4:
+				return dhcpv4.NewInform(hw, lip, mods...)
+			}
+			return dhcpv4.NewDiscovery(hw, mods...)
 		}
+		out, err := build()
 		if err != nil {
 			return obs.Failf("C15/builder-error", "a packet", "error %v", err)
 		}
 		enc := out.ToBytes()
+		// a second use of the same modifier slice gives the same packet (transaction id aside when it is random)
+		if out2, err2 := build(); err2 != nil {
+			return obs.Failf("C15/builder-error", "a packet on the second use of the modifier slice", "error %v", err2)
+		} else {
+			if !m.xidKnown {
+				out2.TransactionID = out.TransactionID
+			}
+			if e2 := out2.ToBytes(); !bytes.Equal(e2, enc) {
+				return obs.Failf(fmt.Sprintf("C15/b%d/second-use", c.Builder), "the same packet when the builder is called again with the same modifier slice", "differs at byte %d", firstDiff(e2, enc))
+			}
+		}
 		got, why := refv4.Decode(enc)
 		if why != refv4.OK {
 			return obs.Failf("C15/unreadable", "independent decoder accepts the built packet", "%s", why)
@@ -381,10 +394,14 @@ func genC15() *rapid.Generator[c15Case] {
 		c.In = in
 		c.HW = gen.Fill(t, rapid.SampledFrom([]int{6, 6, 0, 8, 16}).Draw(t, "hwlen"), "hw")
 		c.IP = rapid.SliceOfN(rapid.Byte(), 4, 4).Draw(t, "lip")
+		c.Spare = rapid.SampledFrom([]int{0, 0, 1, 3, 4, 8, 16}).Draw(t, "spare")
 		n := rapid.IntRange(0, 4).Draw(t, "nmods")
 		for i := 0; i < n; i++ {
 			md := c15Mod{Kind: rapid.IntRange(0, 23).Draw(t, "kind"), IP: rapid.SliceOfN(rapid.Byte(), 4, 4).Draw(t, "ip"),
 				U32: rapid.Uint32().Draw(t, "u32"), B: rapid.Bool().Draw(t, "b")}
+			if rapid.Bool().Draw(t, "smalltype") {
+				md.U32 = uint32(rapid.IntRange(0, 9).Draw(t, "msgtype")) // real message types (NAK, DECLINE, …) for WithMessageType
+			}
 			md.Code = rapid.SampledFrom([]uint8{53, 54, 55, 82, 61, 50, 51, 1, 12, 200}).Draw(t, "code")
 			md.Val = gen.Fill(t, rapid.IntRange(0, 12).Draw(t, "vl"), "val")
 			md.Codes = rapid.SliceOfN(rapid.SampledFrom([]byte{1, 3, 6, 15, 66, 67, 119, 252}), 0, 5).Draw(t, "codes")
